@@ -424,6 +424,30 @@ pub fn c15() -> i32 {
             scns.push(s);
         }
     }
+    // a peer with two local players whose input delays differ (set_input_delay for one of them
+    // before the first frame): what that peer reports about its players (their last frames, one
+    // ahead of the other by the difference of the delays) is not how far it has got
+    for tp in ["2+1", "1+2"] {
+        for dd in [2usize, 4, 8] {
+            for lead in [0i32, 3, -4] {
+                for lat in [0, 1] {
+                    let mut s = base_scn("c15-two-locals-different-delays", tp, 12, 0, false, Pred::RepeatLast, Program::Changing, lat);
+                    let owner = if tp == "2+1" { 0 } else { 1 };
+                    let h = s.peers[owner].locals[1];
+                    s.script.push(ScriptItem { round: 0, node: owner, action: Action::SetDelay { handle: h, delay: dd } });
+                    let follower = if lead >= 0 { 1 } else { 0 };
+                    for i in 0..lead.abs() {
+                        s.scripted_stalls.push((follower, 2 + i));
+                    }
+                    s.name = format!("{} fps=60 lead={lead} pattern=0 second local player of peer {owner} delayed by {dd}", s.name);
+                    s.horizon = 0;
+                    s.probe = 12 * 60;
+                    s.checks = CK_C02 | CK_STATS;
+                    scns.push(s);
+                }
+            }
+        }
+    }
     // errors before numbers
     for fps in [60usize, 30] {
         for lat in [0, 2] {
